@@ -1496,7 +1496,6 @@ static void runVMap(const VMapCase& c, Ctx& ctx)
   // the map fit forces auth_aniso = auth_rotation = true (st_alter_vmap_optvar): describe the geometry as three
   // 2-D directions so that the shared reading of the options agrees
   f.opt.auth_aniso = f.opt.auth_rotation = 1;
-  f.opt.lock_iso2d = 0;
   for (int k = 0; k < 3; k++)
   {
     DirC d;
